@@ -34,7 +34,7 @@ inductive Step
   | pubrel (conn : String) (pid : Nat)
   | ack (conn : String) (id : Nat)
   | pubrec (conn : String) (id code : Nat)
-  | disconnect (conn : String) (se : Option Nat)
+  | disconnect (conn : String) (se : Option Nat) (code : Nat := 0)
   | close (conn : String)
   | apiPublish (m : Msg)
   | apiTerminate (cid : String)
@@ -51,7 +51,7 @@ def stepB (b : B) : Step → B
   | .pubrel c p => b.pubrelIn c p
   | .ack c i => b.ackOut c i
   | .pubrec c i k => b.pubrecOut c i k
-  | .disconnect c se => b.disconnectIn c se
+  | .disconnect c se code => b.disconnectIn c se code
   | .close c => b.closeIn c
   | .apiPublish m => (b.deliverMsg "" m []).1
   | .apiTerminate cid => b.apiTerminate cid
@@ -76,11 +76,7 @@ def resumeOf (b1 : B) (r : ConnectReq) : Bool :=
 def endOld (b1 : B) (r : ConnectReq) : B :=
   match b1.sess? r.cid with
   | some _ =>
-    if !resumeOf b1 r then
-      let b := b1.terminate r.cid
-      match b.willOf? r.cid with
-      | some (_, w, _) => (b.dropWill r.cid).sendWill r.cid w
-      | none => b
+    if !resumeOf b1 r then b1.terminateS r.cid
     else b1.dropWill r.cid
   | none => b1
 
@@ -109,7 +105,8 @@ def newCli (cfg : Cfg) (r : ConnectReq) : Cli :=
   { conn := r.conn, cid := r.cid, v := r.v,
     maxInflight := if r.v == 5 then (match r.rm with | some x => min x cfg.maxInflight | none => cfg.maxInflight) else cfg.maxInflight,
     cliMaxPkt := cliMaxPktOf r,
-    cliAliasMax := if r.v == 5 then (match r.ta with | some x => x | none => 0) else 0, quota := cfg.recvMax }
+    cliAliasMax := if r.v == 5 then (match r.ta with | some x => x | none => 0) else 0, quota := cfg.recvMax,
+    aliasOut := Alias.Fifo.new (if r.v == 5 then (match r.ta with | some x => x | none => 0) else 0) }
 
 def connackPkt (cfg : Cfg) (b1 : B) (r : ConnectReq) : Pkt :=
   .connack (resumeOf b1 r) 0 (if r.v == 5 then some (seOf cfg r, cfg.recvMax, cfg.aliasMax, cfg.maxPacket, min r.ka cfg.maxKeepAlive) else none)
@@ -146,9 +143,7 @@ theorem endOld_spec (b1 : B) (r : ConnectReq) :
     | false =>
       refine .inr ⟨?_, rfl, rfl⟩
       simp only [Bool.not_false, if_true]
-      split
-      · exact (grow_dropWill _ _).trans (grow_sendWill _ _ _)
-      · exact Grow.refl _
+      exact grow_terminateS b1 r.cid
 
 theorem endOld_out (b1 : B) (r : ConnectReq) : (endOld b1 r).out = b1.out := by
   rcases endOld_spec b1 r with ⟨g, _⟩ | ⟨g, _⟩
@@ -295,9 +290,11 @@ theorem unregister_deadline (b : B) (conn : String) (c : Cli) (s : Sess)
   · have : ¬ (!false && e != 0) = true := by simp [h0]
     rw [if_neg this] at hb'
     rw [hb']
-    refine ⟨sess?_terminate_self X c.cid, ?_, ?_⟩
-    · exact find?_filter_self (fun (cd : String × Nat) => cd.1) c.cid X.offline
+    refine ⟨sess?_terminateS_self X c.cid, ?_, ?_⟩
+    · rw [terminateS_offline]
+      exact find?_filter_self (fun (cd : String × Nat) => cd.1) c.cid X.offline
     · intro cs hcs
+      rw [terminateS_subs] at hcs
       have := (List.mem_filter.1 hcs).2
       simpa using this
 
@@ -360,6 +357,9 @@ theorem SubsOK.terminate {b : B} (h : SubsOK b) (cid : String) : SubsOK (b.termi
   rw [sess?_terminate_ne b cid cs.1 hne]
   exact h cs hcs'.1
 
+theorem SubsOK.terminateS {b : B} (h : SubsOK b) (cid : String) : SubsOK (b.terminateS cid) :=
+  (h.terminate cid).grow (grow_terminateS b cid)
+
 theorem SubsOK.unregister {b : B} (h : SubsOK b) (conn : String) (force : Bool) : SubsOK (b.unregister conn force) := by
   cases hc : b.cli? conn with
   | none => rw [unregister_none b conn force hc]; exact h
@@ -367,7 +367,7 @@ theorem SubsOK.unregister {b : B} (h : SubsOK b) (conn : String) (force : Bool) 
     have h1 : SubsOK (b.dropCli conn) := h
     rw [unregister_eq b conn force c hc]
     split
-    · exact h1.terminate _
+    · exact h1.terminateS _
     · simp only
       have g := grow_willStep ((b.dropCli conn).setSess
         { unregSess c ‹Sess› force with queue := (unregSess c ‹Sess› force).queue.close }) c
@@ -376,7 +376,7 @@ theorem SubsOK.unregister {b : B} (h : SubsOK b) (conn : String) (force : Bool) 
       have h2 := (h1.grow (grow_setSess _ _)).grow g
       split
       · exact h2
-      · exact h2.terminate _
+      · exact h2.terminateS _
 
 theorem SubsOK.afterDisplace {b : B} (h : SubsOK b) (cid : String) : SubsOK (afterDisplace b cid) := by
   rcases afterDisplace_def b cid with e | ⟨old, _, e⟩
@@ -525,7 +525,7 @@ theorem ok_step (b : B) (st : Step) :
   | pubrel c p => exact (ok_pubrelIn b c p).mono (fun _ h => .inl h)
   | ack c i => exact ok_ackOut b c i
   | pubrec c i k => exact (ok_pubrecOut b c i k).mono (fun _ h => .inl h)
-  | disconnect c se => exact ok_disconnectIn b c se
+  | disconnect c se code => exact ok_disconnectIn b c se code
   | close c => exact (ok_closeIn b c).mono (fun _ h => .inl h)
   | apiPublish m => exact ok_apiPublish b m
   | apiTerminate cid => exact (ok_apiTerminate b cid).mono (fun _ h => .inl h)
